@@ -69,6 +69,7 @@ type Obligation struct {
 	Opaque      map[string]bool
 	Split       []*Term // optional case split conditions (disjoint, exhaustive) used on unknown
 	Pos         token.Position
+	Cut         []*Term // earlier conjuncts of the same clause list (each an obligation of its own): usable as lemmas
 	Timeout     int
 	// result
 	Status  string // unsat, sat, unknown, timeout, error
@@ -814,34 +815,86 @@ func (x *Exec) loadField(st *State, r *Term, structKey, field string, ft types.T
 	return Val{Typ: ft, T: t}
 }
 
-// rangeAxiom: in math mode every element of the entry value of an integer-typed heap component
-// lies in its type's range (needed for reads under quantifiers, which get no per-read fact).
+// rangeAxiom: in math mode every element of an integer-typed heap component lies in its type's
+// range (a type invariant of every reachable state). Reads outside quantifiers get a per-read fact
+// (noteRead); reads under a quantifier need the fact for every index, so the current value of the
+// component is walked down to its base symbols (entry value, havoc values of loops and calls) and
+// each of them gets one quantified range axiom; values stored on the way are program values of
+// the element type and get their own (quantifier-free) range fact.
 func (x *Exec) rangeAxiom(st *State, comp string, srt Sort, elemT types.Type, twoLevel bool) {
-	if x.mode != "math" || x.specMode {
+	if x.mode != "math" {
 		return
 	}
 	if _, _, ok := intInfo(elemT); !ok {
 		return
 	}
-	if _, exists := st.heap[comp]; exists {
+	x.eng.compElem[comp] = compInfo{elemT, srt, twoLevel}
+	if x.specMode {
+		// the heap is a parameter of the spec function here; the axiom is added where the
+		// function is applied to an actual heap (specApp)
 		return
 	}
-	key := "range:" + comp
+	h := x.heapGet(st, comp, srt)
+	key := fmt.Sprintf("range:%s:%d", comp, h.id)
 	if x.globalInit[key] {
 		return
 	}
 	x.globalInit[key] = true
-	h := x.heapGet(st, comp, srt)
 	c := x.c
-	r := c.Bound("r", SInt)
-	if !twoLevel {
-		e := c.Select(h, r)
-		x.assumeGlobal(st, c.Forall([]*Term{r}, x.inRange(e, elemT), []*Term{e}))
-		return
+	seen := map[int]bool{}
+	var walk func(t *Term, level int)
+	walk = func(t *Term, level int) {
+		k := t.id*2 + level
+		if seen[k] {
+			return
+		}
+		seen[k] = true
+		switch {
+		case t.kind == kConst:
+			sk := fmt.Sprintf("rangesym:%s:%d", t.op, level)
+			if x.globalInit[sk] {
+				return
+			}
+			x.globalInit[sk] = true
+			switch {
+			case level == 0 && !twoLevel:
+				r := c.Bound("r", SInt)
+				e := c.Select(t, r)
+				x.assumeGlobal(st, c.Forall([]*Term{r}, x.inRange(e, elemT), []*Term{e}))
+			case level == 0 && twoLevel:
+				is, inner := t.sort.ArrayParts()
+				_ = is
+				ks, _ := inner.ArrayParts()
+				r := c.Bound("r", SInt)
+				i := c.Bound("i", ks)
+				e := c.Select(c.Select(t, r), i)
+				x.assumeGlobal(st, c.Forall([]*Term{r, i}, x.inRange(e, elemT), []*Term{e}))
+			default:
+				ks, _ := t.sort.ArrayParts()
+				i := c.Bound("i", ks)
+				e := c.Select(t, i)
+				x.assumeGlobal(st, c.Forall([]*Term{i}, x.inRange(e, elemT), []*Term{e}))
+			}
+		case t.kind == kApp && t.op == "store":
+			walk(t.args[0], level)
+			v := t.args[2]
+			if twoLevel && level == 0 {
+				walk(v, 1)
+			} else if !v.bound && !v.IsLit() {
+				vk := fmt.Sprintf("rangeval:%d", v.id)
+				if !x.globalInit[vk] {
+					x.globalInit[vk] = true
+					x.assumeGlobal(st, x.inRange(v, elemT))
+				}
+			}
+		case t.kind == kApp && t.op == "ite":
+			walk(t.args[1], level)
+			walk(t.args[2], level)
+		case t.kind == kApp && t.op == "select" && twoLevel && level == 1:
+			walk(t.args[0], 0)
+		}
 	}
-	i := c.Bound("i", x.idxSort())
-	e := c.Select(c.Select(h, r), i)
-	x.assumeGlobal(st, c.Forall([]*Term{r, i}, x.inRange(e, elemT), []*Term{e}))
+	walk(h, 0)
 }
 
 func (x *Exec) storeField(st *State, r *Term, structKey, field string, ft types.Type, v Val) {
